@@ -431,3 +431,24 @@ def ring_index_base(e, n_name="BUFFER_SIZE"):
             m = strip_casts(m)
             if m[0] == "bin" and m[1].rstrip("!~") == "Sub" and strip_casts(m[2]) == N and strip_casts(m[3]) == ("const", 1): return strip_casts(x)
     return None
+
+
+def sentinel_edges(body, dag, x):
+    """switch block x compares a value with the u32::MAX end-of-list sentinel: (target taken when the value IS the sentinel, target when it is not); else None"""
+    c = D.cmp_of_switch(body, dag, x)
+    if not c: return None
+    op, l, r, tt, ft = c
+    sent = lambda e: (lambda z: z == ("const", 0xFFFFFFFF) or (z[0] == "gconst" and str(z[1]).endswith("u32::MAX")))(D.strip_casts(e))
+    if not (sent(l) or sent(r)): return None
+    if op == "Eq": return (tt, ft)
+    if op == "Ne": return (ft, tt)
+    return None
+
+
+def on_live_side_of_sentinel_tests(body, dag, blk, within=None):
+    """blk is not confined to the is-the-sentinel side of any sentinel comparison that dominates it (work for a listener happens where the id is a live one)"""
+    for x in (within if within is not None else body.reachable):
+        se = sentinel_edges(body, dag, x)
+        if not se or se[0] == se[1] or not body.dominates(x, blk): continue
+        if (body.dominates(se[0], blk) or se[0] == blk) and not (body.dominates(se[1], blk) or se[1] == blk): return False
+    return True
